@@ -35,6 +35,8 @@ type c17mCase struct {
 	golit string // big: the replay
 	want  string // regression cases: the required outcome of Unmarshal ("" = anything but a panic)
 	fix   string
+	cut   string // d17 cut-off documents: the model's wire form of the document (lean D17.Cut), for d17.cutfit
+	per   int    // … and the least number of bytes one counted slot costs (32-byte cty.Value slots: 16; extension bodies: 1)
 }
 
 type c17m struct {
@@ -261,6 +263,10 @@ func (m *c17m) judgeCase(c *c17mCase, o c17Obs) {
 			}
 		}
 	}
+	if c.cut != "" && c.t != cty.NilType && (o.uOut == "ok" || o.uOut == "err") {
+		// the allocation cost model on a document cut off after a length header against the measured allocation
+		ctx.Add("d17.cutfit", "fit", c.cut, encTy(c.t), fmt.Sprint(o.uAlloc), fmt.Sprint(c.per))
+	}
 	if c.want != "" && o.uOut != c.want {
 		ctx.Fail(Failure{Site: "regression", Sig: "msgpack.Unmarshal:" + c.fix + ":" + c17mShort(c.b), What: "the witness of a repaired decoder defect (/repo " + c.fix + ") no longer gives " + c.want,
 			Input: c.input(), GoLit: c.lit("msgpack.Unmarshal"), Outcome: o.uOut + " " + o.why})
@@ -394,7 +400,7 @@ func runC17Mp(ctx *Ctx) {
 	m.families()
 	m.flush()
 	phase("families")
-	m.d17Families(); m.flush(); phase("d17-families")
+	m.d17Families(); m.d17CutFamily(); m.flush(); phase("d17-families")
 	m.maxR = 0
 	m.generated()
 	m.flush()
